@@ -122,11 +122,17 @@ def highlightSingleRune (env : Env) (word : Bytes) (runeIndex : Int) (base highl
 /-- `fmt.Sprintf("%-*s", width, s)` for `width ≥ 0`: pad on the right to `width` runes -/
 def padRight (s : Bytes) (width : Int) : Bytes := s ++ spaces (width - (decodeUtf8 s).length)
 
-/-! ## Formatters (`termformat.Passthru`, `termformat.Default` = `humanize.Hi`) -/
+/-! ## Formatters (`termformat.Formatter`)
+
+`termformat.Passthru`, `termformat.Default` (= `humanize.Hi`) and the expression formatter
+`termformat.FromExpression(expr)`.  In the model a formatter is a FUNCTION of (value, min, max): the
+same arguments always give the same text, whatever was formatted before.  `Rare/Model/C14Format.lean`
+builds the `fn` of an expression from the shared expression model. -/
 
 inductive Fmt where
   | raw | hi
-  deriving Repr, DecidableEq
+  /-- `FromExpression(expr)`: `kb.BuildKey` on the context (val, min, max) -/
+  | fn (f : Int → Int → Int → Bytes)
 
 /-- digits right-to-left with a comma after every third (`humanizeInt`'s loop) -/
 def commaRev : List UInt8 → Nat → List UInt8
@@ -139,10 +145,12 @@ def humanizeInt (v : Int) : Bytes :=
     let ds := (commaRev (natDigits v.natAbs).reverse 0).reverse
     if v < 0 then 45 :: ds else ds
 
-def Fmt.apply (f : Fmt) (v : Int) : Bytes :=
+/-- `formatter(val, min, max)` -/
+def Fmt.apply (f : Fmt) (v mn mx : Int) : Bytes :=
   match f with
   | .raw => itoa v
   | .hi => humanizeInt v
+  | .fn g => g v mn mx
 
 /-! ## termscaler -/
 
@@ -447,7 +455,7 @@ def pctText : Bytes := ascii "[P%]"
 /-- `HistoWriter.writeLine` -/
 def Histo.writeLine {α : Type} (A : Arith α) (env : Env) (h : Histo) (vt : VirtualTerm) (line : Int) (key : Bytes) (val : Int) :
     Res VirtualTerm := do
-  let s := wrap env cYellow (padRight key h.textSpacing) ++ ascii "    " ++ padRight (h.fmt.apply val) 10
+  let s := wrap env cYellow (padRight key h.textSpacing) ++ ascii "    " ++ padRight (h.fmt.apply val 0 h.maxVal) 10
   let s := if h.showPct ∧ h.total > 0 then s ++ [32] ++ wrap env cCyan pctText else s
   if h.showBar ∧ h.maxVal > 0 then
     let bar ← barWrite A env (scale A h.scaler val 0 h.maxVal) 50
@@ -530,7 +538,7 @@ def BarGraph.writeBarGrouped {α : Type} (A : Arith α) (env : Env) (g : BarGrap
     let pre ← if vi.2 > 0 then repeatStr [32] (g.maxKeyLength + 2) else pure (if vi.2 = 0 then head else [])
     let c ← getIdx groupColors ((vi.2 : Int) % groupColors.length)
     let bar ← barWrite A env (scale A g.scaler vi.1 0 g.maxLineVal) g.barSize
-    let s := pre ++ colorWrite env c bar ++ [32] ++ g.fmt.apply vi.1
+    let s := pre ++ colorWrite env c bar ++ [32] ++ g.fmt.apply vi.1 0 g.maxLineVal
     v.writeForLine (line + vi.2) s) vt
   pure (g, vt')
 
@@ -544,7 +552,7 @@ def BarGraph.writeBarStacked (env : Env) (g : BarGraph) (vt : VirtualTerm) (idx 
   let line := wrap64 (idx + g.prefixLines)
   let g := if line + 1 > g.maxRows then { g with maxRows := line + 1 } else g
   let bar ← barWriteStacked env g.maxLineVal g.barSize vals
-  let vt' ← vt.writeForLine line (head ++ bar ++ ascii "  " ++ g.fmt.apply total)
+  let vt' ← vt.writeForLine line (head ++ bar ++ ascii "  " ++ g.fmt.apply total 0 g.maxLineVal)
   pure (g, vt')
 
 def BarGraph.writeBar {α : Type} (A : Arith α) (env : Env) (g : BarGraph) (vt : VirtualTerm) (idx : Int) (key : Bytes) (vals : List Int) :
@@ -577,11 +585,19 @@ structure DataTable where
   numCols : Int
   showRowTotals : Bool
   showColTotals : Bool
-  fmt : Fmt
+  fmt : Fmt := .hi
+  needsMinMax : Bool := false
 
-def DataTable.new (numCols numRows : Int) (rowTot colTot : Bool) (fmt : Fmt) : Res DataTable := do
+/-- `NewDataTable(term, numCols, numRows)` (default formatter) with the two `Show…Totals` fields set -/
+def DataTable.new (numCols numRows : Int) (rowTot colTot : Bool) : Res DataTable := do
   let t ← TableWriter.new (wrap64 (numCols + 2)) (wrap64 (numRows + 2))
-  pure { table := t, numRows, numCols, showRowTotals := rowTot, showColTotals := colTot, fmt }
+  pure { table := t, numRows, numCols, showRowTotals := rowTot, showColTotals := colTot }
+
+/-- `DataTable.SetFormatter(f)` -/
+def DataTable.setFormatter (d : DataTable) (f : Fmt) : DataTable := { d with fmt := f, needsMinMax := true }
+
+/-- `var min, max int64; if s.needsMinMax { min, max = counter.ComputeMinMax() }` -/
+def DataTable.range (d : DataTable) (c : Cells) : Int × Int := if d.needsMinMax then c.minMax else (0, 0)
 
 /-- `minColSlice(count, cols)` -/
 def minColSlice {α : Type} (count : Int) (cols : List α) : Res (List α) :=
@@ -594,14 +610,14 @@ def DataTable.headerCells (env : Env) (d : DataTable) (ckeys : List Bytes) (cols
 
 /-- one data row: the row key, the formatted value of every displayed column, the formatted row sum -/
 def DataTable.rowCells (env : Env) (d : DataTable) (rkeys : List Bytes) (c : Cells) (cols : List Nat) (r : Nat) : List Bytes :=
-  [wrap env cYellow (keyAt rkeys r)] ++ cols.map (fun k => d.fmt.apply (c.value r k)) ++
-    [if d.showRowTotals then wrap env cBrightBlack (d.fmt.apply (c.rowSum r)) else []]
+  [wrap env cYellow (keyAt rkeys r)] ++ cols.map (fun k => d.fmt.apply (c.value r k) (d.range c).1 (d.range c).2) ++
+    [if d.showRowTotals then wrap env cBrightBlack (d.fmt.apply (c.rowSum r) (d.range c).1 (d.range c).2) else []]
 
 /-- the totals row -/
 def DataTable.totalCells (env : Env) (d : DataTable) (c : Cells) (cols : List Nat) : List Bytes :=
   [wrap env (cBrightBlack ++ cUnderline) (ascii "Total")] ++
-    cols.map (fun k => wrap env cBrightBlack (d.fmt.apply (c.colTotal k))) ++
-    [if d.showRowTotals then wrap env cBrightWhite (d.fmt.apply c.sum) else []]
+    cols.map (fun k => wrap env cBrightBlack (d.fmt.apply (c.colTotal k) (d.range c).1 (d.range c).2)) ++
+    [if d.showRowTotals then wrap env cBrightWhite (d.fmt.apply c.sum (d.range c).1 (d.range c).2) else []]
 
 /-- the displayed columns: `minColSlice(s.numCols, counter.OrderedColumns(..))` -/
 def DataTable.shownCols (d : DataTable) (c : Cells) : Res (List Nat) := minColSlice d.numCols c.cols
@@ -617,7 +633,7 @@ def DataTable.script (env : Env) (d : DataTable) (rkeys ckeys : List Bytes) (c :
   let totals := if d.showColTotals then [TableOp.row ((rows.length : Int) + 1) (d.totalCells env c cols)] else []
   pure ([TableOp.row 0 (d.headerCells env ckeys cols)] ++ rowOps ++ totals)
 
-/-- `DataTable.WriteTable` (the formatter ignores min/max for both modelled formatters) -/
+/-- `DataTable.WriteTable` -/
 def DataTable.writeTable (env : Env) (d : DataTable) (vt : VirtualTerm) (rkeys ckeys : List Bytes) (c : Cells) :
     Res (DataTable × VirtualTerm) := do
   let ops ← d.script env rkeys ckeys c
@@ -680,7 +696,7 @@ def Heatmap.updateMinMax {α : Type} (A : Arith α) (env : Env) (h : Heatmap) (v
   let keys := scaleKeys A h.scaler 6 h.minVal h.maxVal
   let parts ← keys.zipIdx.mapM fun (item, idx) => do
     let cell ← heatWrite A env (scale A h.scaler item h.minVal h.maxVal)
-    pure ((if idx > 0 then ascii "    " else []) ++ cell ++ [32] ++ h.fmt.apply item)
+    pure ((if idx > 0 then ascii "    " else []) ++ cell ++ [32] ++ h.fmt.apply item min max)
   let vt' ← vt.writeForLine 0 (writeRepeat 32 (h.maxRowKeyWidth + 1) ++ parts.flatten)
   pure (h, vt')
 
@@ -757,7 +773,7 @@ def Spark.rowCells {α : Type} (A : Arith α) (env : Env) (s : Spark) (rkeys : L
     (minVal maxVal : Int) (r : Nat) : Res (List Bytes) := do
   let cells ← sparkCells A env s.scaler (colIdx.map (c.value r)) minVal maxVal
   let (vFirst, vLast) := match colIdx.head?, colIdx.getLast? with
-    | some f, some l => (s.fmt.apply (c.value r f), s.fmt.apply (c.value r l))
+    | some f, some l => (s.fmt.apply (c.value r f) minVal maxVal, s.fmt.apply (c.value r l) minVal maxVal)
     | _, _ => ([], [])
   pure [wrap env cYellow (keyAt rkeys r), wrap env cBrightBlack vFirst, cells.flatten, wrap env cBrightBlack vLast]
 
